@@ -197,6 +197,21 @@ void BufferedFd::onReadCallback(short)
     rbuf[1].iov_base = extbuf;
     rbuf[1].iov_len  = sizeof(extbuf);
 
+    //! hand the content of recv_buff_ over to the bound receiver or to the user
+    auto deliver = [this] {
+        if (wp_receiver_ != nullptr) {
+            wp_receiver_->send(recv_buff_.readableBegin(), recv_buff_.readableSize());
+            recv_buff_.hasReadAll();
+        } else if (receive_cb_) {
+            ++cb_level_;
+            receive_cb_(recv_buff_);
+            --cb_level_;
+        } else {
+            LogWarn("receive_cb_ is not set");
+            recv_buff_.hasReadAll();    //! 丢弃数据，防止堆积
+        }
+    };
+
     ssize_t rsize = fd_.readv(rbuf, 2);
     if (rsize > 0) {    //! 读到了数据
         do {
@@ -216,22 +231,17 @@ void BufferedFd::onReadCallback(short)
         } while ((rsize = fd_.readv(rbuf, 2)) > 0);
 
         //! 如果有绑定接收者，则应将数据直接转发给接收者
-        if (wp_receiver_ != nullptr) {
-            wp_receiver_->send(recv_buff_.readableBegin(), recv_buff_.readableSize());
-            recv_buff_.hasReadAll();
-
-        } else if (recv_buff_.readableSize() >= receive_threshold_) {
-            if (receive_cb_) {
-                ++cb_level_;
-                receive_cb_(recv_buff_);
-                --cb_level_;
-            } else {
-                LogWarn("receive_cb_ is not set");
-                recv_buff_.hasReadAll();    //! 丢弃数据，防止堆积
-            }
-        }
+        if (wp_receiver_ != nullptr || recv_buff_.readableSize() >= receive_threshold_)
+            deliver();
 
     } else if (rsize == 0) {    //! 读到0字节数据，说明fd_已不可读了
+        //! no more data will come: what is still buffered (less than the threshold) goes out before the close is reported
+        if (recv_buff_.readableSize() > 0) {
+            deliver();
+            if (state_ != State::kRunning)  //! disabled from inside the callback: nothing more to report
+                return;
+        }
+
         if (read_zero_cb_) {
             ++cb_level_;
             read_zero_cb_();
@@ -239,12 +249,20 @@ void BufferedFd::onReadCallback(short)
         }
     } else {    //! 读出错了
         if (errno != EAGAIN) {
+            int errnum = errno;
+            //! the stream ends here too: hand over what is still buffered before the error is reported
+            if (recv_buff_.readableSize() > 0) {
+                deliver();
+                if (state_ != State::kRunning)
+                    return;
+            }
+
             if (read_error_cb_) {
                 ++cb_level_;
-                read_error_cb_(errno);
+                read_error_cb_(errnum);
                 --cb_level_;
             } else
-                LogWarn("read error, rsize:%d, errno:%d, %s", rsize, errno, strerror(errno));
+                LogWarn("read error, rsize:%d, errno:%d, %s", rsize, errnum, strerror(errnum));
         }
     }
 }
